@@ -6,6 +6,7 @@ import z3
 
 from . import sym
 from .sym import Unsupported, concrete_bool, concrete_int, is_sym
+from .values import PyNative  # noqa: E402
 from .values import (AtenOp, BoundMethod, Builtin, ClassVal, Closure, Device, DType, ExcVal, ExtClass, Namespace, Obj,
                      Opaque, Partial, STensor, Token, contiguous_strides, numel_of)
 
@@ -156,7 +157,7 @@ class TypingThing:
         self.n = n
 
 
-class Version:
+class Version(PyNative):
     def __init__(self, s):
         self.s = s
 
@@ -165,7 +166,7 @@ class Version:
         return tuple(int(x) for x in self.s.split("+")[0].split(".")[:3] if x.isdigit())
 
 
-class Info:
+class Info(PyNative):
     """torch.iinfo / torch.finfo"""
 
     def __init__(self, d):
@@ -272,7 +273,7 @@ def inspect_signature(E, fn):
     return PyObj({"parameters": {p.name: p for p in ps}})
 
 
-class PyObj:
+class PyObj(PyNative):
     """Plain python record exposed to interpreted code through NativeMethod / attributes."""
 
     def __init__(self, d):
